@@ -1,6 +1,7 @@
 //! Serialization monitors: C09 (canonical round trips at the advertised size, unique field
 //! encodings), C10 (checked deserialization yields only valid elements and never panics), C18
 //! (container and derive-macro serializations).
+#![allow(dead_code)]
 use monitor::*;
 use std::time::Instant;
 
@@ -29,8 +30,8 @@ const SLICE_ITEMS: &[&str] = &[
     "field/grid/goldilocks/d",
     "field/grid/m127/d",
     "field/toy/F7_2",
-    "toy/sw_a_h2",
-    "toy/sw_a_h2/compressed",
+    "toy/te_inc",
+    "toy/sw_a0_h4/compressed",
     "toy/te_inc/compressed",
     "flags",
     "container/Vec<u8>",
@@ -39,7 +40,6 @@ const SLICE_ITEMS: &[&str] = &[
     "container/Named",
     "container/NestedTup",
     "container/BTreeMap<u8,u16>",
-    "wrapper-validation",
 ];
 
 fn main() {
